@@ -343,6 +343,10 @@ def m_append(reg, eng, st, recv, args, kwargs, node, rexpr):
             return [(st, VNONE)]
         recv = eng.typed(recv, dt)
     if recv.t[0] == "bag":
+        if e.t[0] == "opt" and recv.t[1][0] != "opt":
+            # an Optional value appended to a list of non-Optional elements: the path must have established that it is not None
+            eng.oblige(st, znot(e.x[0]), "pre@call", f"appended value is not None@{getattr(node, 'lineno', 0)}", getattr(node, "lineno", 0))
+            e = e.x[1]
         _store(eng, st, rexpr, V(recv.t, z3.Store(recv.x, to_term(coerce(e, recv.t[1])), TRUE)), recv)
         return [(st, VNONE)]
     if recv.t[0] == "seq":
